@@ -184,7 +184,7 @@ fn add_remove_c1() { check_add_remove::<1>(); }
 #[kani::unwind(5)]
 fn add_remove_c2() { check_add_remove::<2>(); }
 
-//@ harness id=ooq.k.add_remove.c3 kind=bounded props=C04,C01,C10 tier=thorough timeout=1800 bound="OOQ_CAP==3; payload<=2B" text="same as ooq.k.add_remove.c1 at capacity 3"
+//@ harness id=ooq.k.add_remove.c3 kind=bounded props=C04,C01,C10 tier=quick timeout=1800 bound="OOQ_CAP==3; payload<=2B" text="same as ooq.k.add_remove.c1 at capacity 3"
 #[kani::proof]
 #[kani::unwind(6)]
 fn add_remove_c3() { check_add_remove::<3>(); }
